@@ -61,6 +61,16 @@ CHECKS = {
         note=TB + " C04: periodic geometric statement not proved (only transcribed and tested); np.linspace spacing in refine is modelled exactly (cases use exactly representable spacings); "
                   "graded refinement knot positions (tan/atan) are inputs, only the map/structure is checked.",
         design='DESIGN.md section 8, C04'),
+    'C06': dict(
+        engine='objdiff',
+        technique='Coq proof (affine/mirror invariance of Cox-de Boor, reparam/reverse knot maps, lifting lemma with the reversal matrix, surface transposition) + differential run of extracted model vs operation histories',
+        text=("Theorems in Properties/C06.v: B-splines are invariant under increasing affine maps of knots and parameter; mirroring the knots mirrors the functions and flips the one-sided "
+              "variant; BSplineBasis.reparam raises ValueError iff end<=start and otherwise maps the knots affinely onto exactly [s,e] with order/periodicity untouched; "
+              "BSplineBasis.reverse produces the mirrored knot function; reversing the control net along any non-periodic direction of any-pardim object together with the basis row "
+              "preserves every coordinate of the evaluation; surface swap preserves the contraction. Correspondence: histories of reverse/swap/reparam (all direction spellings, "
+              "periodic directions included) — post-state vs extracted model after each step (L1), map relation at mapped parameters, exact domains, periodicity, involutions (L2)."),
+        note=TB + " C06: periodic reverse (needs the roll by periodic+1, repaired in /repo by a fix: commit) and volume swap are PARTIAL: transcribed and tested, not proved.",
+        design='DESIGN.md section 8, C06'),
 }
 
 PENDING_REASON = "not claimed in this revision: model/theorems for this property are still being built (see DESIGN.md section 8 for the plan)"
